@@ -683,6 +683,43 @@ def text_rules(run, rule, f):
                 buf["ref"]["name"], astq.text(sz[0])[:60]), where(n))
 
 
+def emitted_decl_rules(run, rule, f):
+    """two facts about the text around the tables: (1) the emitted object is declared `static` - the text ends with a call statement,
+    so it is included inside a function, and decoding leaves every v-table pointer of the program pointing INTO the object: with
+    automatic storage they dangle when that function returns; (2) the policy named in the emitted decoder call is the caller's
+    policy argument, the default-policy macro only standing in for an empty name."""
+    where = lambda n: (f["file"], n["l"] if isinstance(n, dict) else f["line"])
+    lits = [x for x in astq.walk(f["body"]) if x.get("k") == "StringLiteral" and "headroom" in (x.get("s") or "") and "struct" in (x.get("s") or "")]
+    if len(lits) != 1:
+        run.broken.append("encode_dispatch_data: the format of the emitted declaration was not found (%d candidates)" % len(lits))
+    else:
+        head = lits[0]["s"].split("{", 1)[0]
+        ok = bool(re.search(r"\bstatic\b", head)) and "struct" in head
+        run.instance(rule, "encode_dispatch_data: the emitted tables are an object with static storage duration", where(lits[0]), ok=ok)
+        if not ok:
+            run.violation(rule, "generator::encode_dispatch_data|static-storage", "the emitted declaration starts `%s{`: without `static` the decoded tables live on the stack of the function that includes the text, and every v-table pointer installed by the decoder dangles once it returns" % head.strip()[:40], where(lits[0]))
+    pdids = {p["did"] for p in f["params"] if "string" in (p.get("type") or "")}
+    conds = [n for n in astq.walk(f["body"]) if n.get("k") == "ConditionalOperator" and any(
+        x.get("k") == "CXXMemberCallExpr" and (x.get("callee") or "").endswith("::empty") and any(y.get("k") == "DeclRefExpr" and y["ref"]["did"] in pdids for y in astq.walk(x)) for x in astq.walk(n["c"][0]))]
+    if not conds:
+        # no fallback at all is fine as long as the name is emitted: handled by the decoder-call presence below
+        emits = [x for x in astq.walk(f["body"]) if x.get("k") == "StringLiteral" and "decode_dispatch_data<" in (x.get("s") or "")]
+        if not emits:
+            run.broken.append("encode_dispatch_data: emission of the decoder call not found")
+        return
+    for n in conds:
+        c0 = astq.strip(n["c"][0])
+        neg = False
+        while c0 is not None and c0.get("k") == "UnaryOperator" and c0.get("op") == "!":
+            c0, neg = astq.strip(c0["c"][0]), not neg
+        when_empty, otherwise = (n["c"][2], n["c"][1]) if neg else (n["c"][1], n["c"][2])
+        refs = lambda e: any(y.get("k") == "DeclRefExpr" and y["ref"]["did"] in pdids for y in astq.walk(e))
+        ok = refs(otherwise) and not refs(when_empty)
+        run.instance(rule, "encode_dispatch_data: the decoder call names the caller's policy (the default-policy macro only for an empty name)", where(n), ok=ok)
+        if not ok:
+            run.violation(rule, "generator::encode_dispatch_data|policy-name", "`%s`: a named policy is not the one the emitted decoder call decodes into (its tables are installed in another policy's registry)" % astq.text(n)[:80], where(n))
+
+
 def publish_rules(run, rule, dec, ast):
     """the decoder ends by publishing v-table pointers for Policy::classes - the raw registration RECORDS, in which a class that
     appears in two registration statements appears twice with the same id (the decoder's own v-table loop skips such repeats).
@@ -864,6 +901,7 @@ def check(run):
             encoder_rules(run, r1, r2, f)
             c12.encoder_layout_rule(run, r2, f)
             text_rules(run, r2, f)
+            emitted_decl_rules(run, r2, f)
         c12.codec_rule(run, r1, ast, encoder=False)
         for f in decs:
             decoder_rules(run, r1, r2, f, augs[0])
